@@ -446,7 +446,11 @@ class ExprFormatted(Expr):
     def iterate(self, *, flat: bool = True) -> Iterator[str | Expr]:
         yield "{"
         # The colon of a bare lambda would start the format specification (`ast.unparse` does the same).
-        yield from _yield(_operand(self.value, _OR), flat=flat)
+        value = _operand(self.value, _OR)
+        if value is self.value and str(value).startswith("{"):
+            # `{{` would be an escaped brace.
+            yield " "
+        yield from _yield(value, flat=flat)
         if self.conversion:
             yield f"!{self.conversion}"
         if self.format_spec is not None:
